@@ -11,7 +11,8 @@ MaxLen == IF Tier = "quick" THEN 3 ELSE 4
 \* characters that text functions single out (line feed: not matched by the regular expression dot; carriage return, NUL,
 \* next line U+0085 and line separator U+2028: line boundaries of splitlines) beside a letter
 Ctl == {10, 13, 0, 133, 8232, 65}
-Payloads == (SeqsUpTo(Alpha, MaxLen) \ {<<>>}) \cup (SeqsUpTo(Ctl, 3) \ {<<>>}) \cup
+\* (the empty payload included: nothing to encode - but the byte order mark of utf16 is there all the same)
+Payloads == SeqsUpTo(Alpha, MaxLen) \cup (SeqsUpTo(Ctl, 3) \ {<<>>}) \cup
             UNION {RandomSubset(IF Tier = "quick" THEN 40 ELSE 1500, [1..n -> Alpha]) : n \in {5, 6, 7, 9}}
 Chains == <<
   <<"base64">>, <<"base64offset">>, <<"base64offset", "contains">>,
